@@ -4,9 +4,11 @@
 mod common;
 mod refcheck;
 mod c01;
+mod c02;
 mod c03;
 mod c04;
 mod c05;
+mod c06;
 
 use common::*;
 
@@ -21,9 +23,11 @@ fn main() {
     match argv[0].as_str() {
         "refcheck" => refcheck::run(&args),
         "c01" => c01::run(&args),
+        "c02" => c02::run(&args),
         "c03" => c03::run(&args),
         "c04" => c04::run(&args),
         "c05" => c05::run(&args),
+        "c06" => c06::run(&args),
         "c05depth" => c05::run_depth(&args),
         "c05case" => c05::run_one(&args),
         other => {
